@@ -157,3 +157,14 @@ func NativeUnsupported(reason string) { panic(NativeUnsupportedError(reason)) }
 // ConcreteBuffers tells the engine to keep byte buffers that are built from concrete pieces cell by cell
 // (used by the image-constructor harnesses whose metadata buffer is inspected at concrete positions).
 func ConcreteBuffers() {}
+
+// Inconclusive ends the path as INCONCLUSIVE (exit 3, never a VIOLATION): the harness has no way to observe the
+// property on this code (for instance the mechanism it instruments is no longer used).
+func Inconclusive(reason string) { panic(NativeUnsupportedError("inconclusive: " + reason)) }
+
+// Goroutines switches the engine's cooperative goroutine schedule on for this harness (engine/sched.go):
+// `go` statements are queued and run to completion when the running code blocks, at Yield and at the end.
+func Goroutines() {}
+
+// Yield lets every started goroutine run to completion (engine); natively it only gives them a chance.
+func Yield() { time.Sleep(10 * time.Millisecond) }
